@@ -251,6 +251,29 @@ def require_overflow_checks(P, rep, rule):
               'Cargo.toml', 'overflow-checks = %s' % prof.get('raw'))
 
 
+GATEWAY_KEYS = ('Epoch', 'SignersHashByEpoch', 'EpochBySignersHash', 'LastRotationTimestamp', 'PreviousSignerRetention', 'DomainSeparator',
+                'MinimumRotationDelay', 'MessageApproval', 'Interfaces_Owner', 'Interfaces_Operator', 'Interfaces_Migrating')
+
+
+def is_bookkeeping(e, known_keys):
+    """a storage write under a key that none of this contract's rules speaks about (a counter, a statistic, a label added later): it
+    cannot change what a property constrains; the keys the rules DO speak about stay subject to the who-may-write tables"""
+    return e.kind in ('sw', 'supd') and key_variant(e.key)[0] is not None and key_variant(e.key)[0] not in known_keys
+
+
+def within_entry(g, e, names):
+    """the effect happens inside a (walked) call of one of the named, audited entry FUNCTIONS of the same contract: a new entry point
+    that is a wrapper around existing entry points' logic inherits what is proved of them for every argument (the obligations of those
+    entries are checked on their own graphs; what the wrapper does OUTSIDE such calls is still subject to the who-may-do tables)"""
+    keys = set(g.crate.entries[n] for n in names if n in g.crate.entries)
+    c = e.ctx
+    while c is not None:
+        if c.key in keys and c.parent is not None:
+            return True
+        c = c.parent
+    return False
+
+
 def is_modulo_carry(t, expected):
     """t is `expected`, possibly joined with the loop-carried copy of itself (a field of a loop-state struct that the loop never
     updates reads as phi(initial value, same field of the carried struct))"""
